@@ -145,8 +145,8 @@ class Interp:
         lin = self.resolve(lin)
         lo, hi = lin.interval(self.refine)
         if self.excluded and lin.terms:
-            ex = {v + lin.const for v in self.excluded.get(lin.shape(), ())}
-            ex |= {-v + lin.const for v in self.excluded.get((-lin).shape(), ())}
+            sh, sign = lin.canon()
+            ex = {sign * v + lin.const for v in self.excluded.get(sh, ())}
             while lo in ex and lo <= hi:
                 lo += 1
             while hi in ex and hi >= lo:
@@ -204,17 +204,15 @@ class Interp:
 
     def _refine(self, lin, lo=None, hi=None):
         lin = self.resolve(lin)
-        sh = lin.shape()
-        cur = self.refine.get(sh)
-        if cur is None:
-            nl, nh = Lin(lin.terms, 0).interval(self.refine)
-        else:
-            nl, nh = cur
-        if lo is not None:
-            nl = max(nl, lo - lin.const)
-        if hi is not None:
-            nh = min(nh, hi - lin.const)
-        self.refine[sh] = (nl, nh)
+        if not lin.terms:
+            return
+        sh, sign = lin.canon()
+        nl, nh = self.refine.get(sh, (-INF, INF))
+        # bounds on the non-constant part P = lin - const; canonical part Q = sign * P
+        plo = lo - lin.const if lo is not None else -INF
+        phi = hi - lin.const if hi is not None else INF
+        qlo, qhi = (plo, phi) if sign > 0 else (-phi, -plo)
+        self.refine[sh] = (max(nl, qlo), min(nh, qhi))
 
     def compare_lin(self, op, a, b, node=None):
         d = self.resolve(Lin.of(a) - Lin.of(b))
@@ -239,17 +237,25 @@ class Interp:
             return decide(lo >= 0, hi < 0, lambda: self._refine(d, lo=0), lambda: self._refine(d, hi=-1))
         if op is ast.Eq or op is ast.NotEq:
             def ne():
-                self.excluded.setdefault(d.shape(), set()).add(-d.const)
+                sh, sign = d.canon()
+                self.excluded.setdefault(sh, set()).add(sign * -d.const)
             r = decide(lo == hi == 0, lo > 0 or hi < 0, lambda: self._refine(d, lo=0, hi=0), ne)
             return r if op is ast.Eq else (not r)
         raise CannotDecide("comparison %s on linear forms" % op)
 
     def mod_lin(self, lin, m):
         lo, hi = self.lin_interval(lin)
-        if m > 0 and lo >= 0 and hi < m:
-            return lin
-        if m < 0 and hi <= 0 and lo > m:
-            return lin
+        if m > 0 and lo > -INF and hi < INF:
+            k = lo // m
+            if hi < (k + 1) * m:
+                return lin - Lin.of(k * m)
+        if m < 0 and lo > -INF and hi < INF:
+            # result in (m, 0]
+            k = -((-hi) // (-m))  # smallest multiple of |m| that is >= hi ... in units
+            k = -(-hi // -m)
+            base = k * (-m)  # multiple of |m| >= hi
+            if lo > base + m:
+                return lin - Lin.of(base)
         key = (lin.key(), m)
         if key not in self.mods:
             rng = (0, m - 1) if m > 0 else (m + 1, 0)
